@@ -2,7 +2,7 @@
 *every* step of every run; the protocol recognisers of the Lean model (ledger, step ordering,
 WFHistory, notification automaton) are run over what the engine did."""
 import json, copy
-import common, explore, enginerun, machgen, fanproto
+import common, explore, enginerun, machgen, fanproto, framecmp
 from common import cj, pj
 from machgen import FN, ARN
 
@@ -151,6 +151,25 @@ def corpus(rng, quick):
         "Z": {"Type": "Pass", "End": True}}}, dict(big, none=[])))
     out.append(S("nonext-pass", {"StartAt": "A", "States": {"A": {"Type": "Pass"}}}, {"x": 1}))
     out.append(S("nonext-wait", {"StartAt": "W", "States": {"W": {"Type": "Wait", "Seconds": 1}}}, {"x": 1}))
+    # definitions the engine cannot interpret at one site (C18's subject; here only the lifecycle / ledger / history laws are
+    # evaluated, the reference semantics is not asked): the empty string as a branch's StartAt or as a transition target —
+    # an event whose state name is empty is what the engine takes for the start of a new execution
+    PASS_END = {"Type": "Pass", "End": True}
+    ill = {
+        "branch-startat-empty": {"StartAt": "P", "States": {"P": {"Type": "Parallel", "End": True, "Branches": [
+            {"StartAt": "A", "States": {"A": T("f1")}}, {"StartAt": "", "States": {"B": PASS_END}}]}}},
+        "branch-startat-empty-named": {"StartAt": "P", "States": {"P": {"Type": "Parallel", "End": True, "Branches": [
+            {"StartAt": "", "States": {"": PASS_END}}, {"StartAt": "A", "States": {"A": T("f1")}}]}}},
+        "iterator-startat-empty": {"StartAt": "M", "States": {"M": {"Type": "Map", "ItemsPath": "$.items", "End": True,
+            "Iterator": {"StartAt": "", "States": {"": PASS_END}}}}},
+        "next-empty": {"StartAt": "A", "States": {"A": {"Type": "Pass", "Next": ""}, "": PASS_END}},
+        "catch-next-empty": {"StartAt": "T", "States": {"T": T("f1", Catch=[{"ErrorEquals": ["States.ALL"], "Next": ""}])}},
+        "branch-next-empty": {"StartAt": "P", "States": {"P": {"Type": "Parallel", "End": True, "Branches": [
+            {"StartAt": "A", "States": {"A": {"Type": "Pass", "Next": ""}}}, {"StartAt": "B", "States": {"B": T("f1")}}]}}},
+    }
+    for k, mach in ill.items():
+        out.append(S("illformed-" + k, mach, {"x": 1, "items": [1, 2]}, {"f1": [("err", "Boom", "m")] if "catch" in k else [("ok",)]}, {"f1": 20},
+                     extra={"illformed": True}))
     out.append(S("oversize-branch-task", {"StartAt": "P", "States": {"P": {"Type": "Parallel", "End": True, "Branches": [
         {"StartAt": "T", "States": {"T": T("f1", Next="Z", ResultPath="$.dup"), "Z": {"Type": "Pass", "End": True}}},
         {"StartAt": "B", "States": {"B": T("f2")}}]}}}, big, {"f1": [("ok",)], "f2": [("ok",)]}, {"f1": 10, "f2": 30}))
@@ -326,12 +345,14 @@ class Monitor(object):
         self.last_hist_len = 0
         self.step_no = 0
         self.acked_ids = set()
+        self.rec = framecmp.Recorder()     # the frames per step with their messages (C03.frames_match_reference)
 
     def tagcode(self, fr):
         return fr.get("ch", 0) * 100000 + fr["tag"]
 
     def __call__(self, s, ea, step):
         self.step_no += 1
+        self.rec(s, ea, step)
         log = s.broker.log
         cur = []
         engine_conns = {i.conn.ident for i in s.instances if i.alive and i.conn is not None}
@@ -466,6 +487,14 @@ class Monitor(object):
                 self.problems.append(("C03.drained", leaks))
 
 
+def frames_law(chk, machine, mo, rec):
+    """C03.frames_match_reference: the engine's frames, handler step by handler step, against the steps Asl.run predicts"""
+    mode, fp, nst = framecmp.compare(mo, rec.steps, rec.start, framecmp.fan_entered(machine, mo))
+    chk.dist("frames_vs_reference.%s" % mode)
+    chk.dist("frames_vs_reference.%s.steps" % mode, nst)
+    return [("C03.frames_match_reference", {"mode": mode, "differences": fp})] if fp else []
+
+
 def hist_line(hist):
     evs = []
     for e in hist:
@@ -581,10 +610,13 @@ def run_property(chk, prop, laws, quick_gen=300, thorough_gen=4000, scns=None, n
             # C09.history_matches_reference: where the reference semantics speaks about the run — a STANDARD execution of a
             # machine without TimeoutSeconds, not under a stalled broker, workers driven by a plan (an oracle exists), ended
             speaks = (pl is not None and kind != "stall" and "TimeoutSeconds" not in scn.machine
-                      and not scn.extra.get("machines") and fv.get("status") in ("SUCCEEDED", "FAILED") and not s.errors)
+                      and not scn.extra.get("machines") and not scn.extra.get("illformed")
+                      and fv.get("status") in ("SUCCEEDED", "FAILED") and not s.errors)
             want_hist = "C09" in laws and speaks and scn.sm_type == "STANDARD"
             # C11.notifications_match_reference: the same runs (EXPRESS ones too: they are notified like any other)
             want_notes = "C11" in laws and speaks
+            # C03.frames_match_reference: the canonical ones of those runs (the prediction is that of the canonical schedule)
+            want_frames = "C03" in laws and speaks and kind == "canonical"
             ab = None
             if tracer is not None:
                 # the direct law: no task / wait of a dead attempt survives the step in which its enclosing attempt failed
@@ -596,11 +628,14 @@ def run_property(chk, prop, laws, quick_gen=300, thorough_gen=4000, scns=None, n
                 except fanproto.Unsupported as e:
                     chk.dist("fanproto.unsupported.%s" % e)
             pending_runs.append({"probs": probs, "case": case, "hand": hand, "kind": kind, "fan": ab,
+                                 "reqs": [{"t": q["t"], "queue": q["queue"], "payload": q["payload"]} for q in s.rpc_requests],
+                                 "oracle": pl.oracle() if pl is not None else None, "ea": ea,
                                  "hist": (list(getattr(mon, "final_history", []) or []), len(s.rpc_requests),
                                           [q["t"] for q in s.rpc_requests]) if want_hist else None,
                                  "notes": [n["detail"] for n in mon.notes] if want_notes else None,
                                  "mline": (__import__("props.c01", fromlist=["x"]).model_line(scn.machine, scn.data, ea, pl.oracle())
-                                           if (pl is not None and (expect is not None or (skip_multi and not hand) or want_hist or want_notes)) else None),
+                                           if (pl is not None and (expect is not None or (skip_multi and not hand) or want_hist or want_notes or want_frames)) else None),
+                                 "frames": mon.rec if want_frames else None,
                                  "pre": expect.pre(scn, s, ea, pl, fv) if expect is not None else None, "scn": scn, "fv": fv})
             # Lean recognisers over what the engine did
             if scn.sm_type == "STANDARD":
@@ -631,6 +666,9 @@ def run_property(chk, prop, laws, quick_gen=300, thorough_gen=4000, scns=None, n
             a = next(manswers).split("\t")
             if a[0] == "ok":
                 mo = json.loads(a[1])
+                if pr["kind"] == "canonical" and pr.get("oracle") is not None:
+                    mo = __import__("props.c01", fromlist=["x"]).settled_model(
+                        chk, mo, pr["scn"].machine, pr["scn"].data, pr["ea"], pr["oracle"], pr["reqs"])
         probs = pr["probs"]
         if expect is not None:
             probs = probs + expect.post(pr["scn"], pr["fv"], pr["pre"], mo)
@@ -642,16 +680,19 @@ def run_property(chk, prop, laws, quick_gen=300, thorough_gen=4000, scns=None, n
             # under the canonical schedule every event is handled the instant it is due: the instants are compared too
             canon = pr["kind"] == "canonical"
             mode, hp, nev = enginerun.compare_history(pr["case"]["machine"], mo, pr["hist"][0], pr["hist"][1], timed=canon,
-                                                      request_instants=pr["hist"][2] if canon else None)
+                                                      request_instants=pr["hist"][2] if canon else None, requests=pr["reqs"])
             chk.dist("history_vs_reference.%s.%s" % (pr["kind"], mode))
             chk.dist("history_vs_reference.%s.events" % mode, nev)
             if hp:
                 probs = probs + [("C09.history_matches_reference", {"mode": mode, "differences": hp})]
         if pr["notes"] is not None and mo is not None:
-            nmode, np_ = enginerun.compare_notifications(mo, pr["notes"], pr["case"]["input"], timed=pr["kind"] == "canonical")
+            nmode, np_ = enginerun.compare_notifications(mo, pr["notes"], pr["case"]["input"], timed=pr["kind"] == "canonical",
+                                                            requests=pr["reqs"])
             chk.dist("notifications_vs_reference.%s.%s" % (pr["kind"], nmode))
             if np_:
                 probs = probs + [("C11.notifications_match_reference", {"differences": np_})]
+        if pr.get("frames") is not None and mo is not None:
+            probs = probs + frames_law(chk, pr["case"]["machine"], mo, pr["frames"])
         seen = set()
         for law, detail in probs:
             if not any(law.startswith(l) for l in laws) or law in seen:
@@ -706,7 +747,14 @@ def run_property(chk, prop, laws, quick_gen=300, thorough_gen=4000, scns=None, n
                        "Asl.run predicts under every explored schedule — as sequences without fan-outs, as multisets with fan-outs "
                        "none of which failed, inclusion of the Execution… / StateExited / LambdaFunctionSucceeded events otherwise; "
                        "C11.notifications_match_reference: the status notifications (statuses in order, input / output / error "
-                       "payload) against the model's"
+                       "payload) against the model's; C03.frames_match_reference (canonical runs of those executions): the broker "
+                       "frames of the engine connection handler step by handler step — deliver / publish (event with its state and "
+                       "branch, task request, notification) / ack, each with the message it concerns (matched by address: state, "
+                       "branch indices, occurrence; request by its event, reply by its request), at their instants — against the "
+                       "steps Asl.run predicts (harness/framecmp.py): as sequences without fan-outs, per instant as multisets of "
+                       "steps with fan-outs none of which failed, per instant as multisets of frames when two unlike branches "
+                       "complete a join at the same instant, counts + the engine's own ledger when a fan-out failed "
+                       "(frames_vs_reference.* in the distribution)"
                        % n_rand)
 
 
